@@ -56,6 +56,7 @@ type c19Rule struct {
 	Deny   int      `json:"deny,omitempty"`   // status of a deny action (0 = pass)
 	Ctl    []string `json:"ctl,omitempty"`    // e.g. "auditEngine=Off", "auditLogParts=+K"
 	Never  bool     `json:"never,omitempty"`  // a SecRule that can not match
+	First  bool     `json:"first,omitempty"`  // fires only in the first transaction on the WAF (tests the X-Ctl header like a ctl carrier)
 	Plain  bool     `json:"plain,omitempty"`  // no macros in msg/logdata
 	NoMsg  bool     `json:"nomsg,omitempty"`  // no msg at all
 	Target string   `json:"target,omitempty"` // when set: SecRule <Target> "@unconditionalMatch" (matched value carries request bytes)
@@ -179,7 +180,7 @@ func (c *c19Case) modelFires(idx int) bool {
 	if r.Never {
 		return false
 	}
-	if len(r.Ctl) > 0 && c.Follow {
+	if (len(r.Ctl) > 0 || r.First) && c.Follow {
 		return false // ctl rules test the X-Ctl request header, which the follow-up transaction does not send
 	}
 	if c.ruleEngine() != "On" {
@@ -209,6 +210,7 @@ type c19Expect struct {
 	StatusSource string `json:"status_source"`       // response | interruption | detectiononly
 	Status       int    `json:"status"`
 	Relevant     bool   `json:"relevant"`
+	NoPattern    bool   `json:"no_pattern,omitempty"` // RelevantOnly without SecAuditLogRelevantStatus
 	Records      int    `json:"records"`
 	Ambiguous    string `json:"ambiguous,omitempty"`
 	Parts        string `json:"parts"` // expected effective part letters, canonical order
@@ -302,6 +304,24 @@ func (c *c19Case) expect(fired map[int]int) *c19Expect {
 	case "Off":
 		e.Records = 0
 	case "RelevantOnly":
+		if c.Relevant == "" {
+			// no SecAuditLogRelevantStatus: relevant = some rule fired in THIS transaction asked for audit logging
+			e.NoPattern = true
+			for i := range c.Rules {
+				r := &c.Rules[i]
+				fires := c.modelFires(i)
+				if fired != nil && fires && r.Phase == 5 && c.ruleEngine() == "On" && c.denyRule() != nil {
+					fires = fired[r.ID] > 0
+				}
+				if _, au, ok := c.flagsOf(r); fires && ok && au {
+					e.Relevant = true
+				}
+			}
+			if e.Relevant {
+				e.Records = 1
+			}
+			break
+		}
 		e.Relevant = c19Relevant(c.Relevant, e.Status)
 		if e.StatusSource == "detectiononly" && !e.Relevant && c19Relevant(c.Relevant, c.RespStatus) {
 			// would-be status not relevant but the response that really went out is: the statement
@@ -324,7 +344,9 @@ func (e *c19Expect) countClass() string {
 			s += "5" // switched by a rule of the logging phase itself
 		}
 	}
-	if e.EffEngine == "RelevantOnly" {
+	if e.EffEngine == "RelevantOnly" && e.NoPattern {
+		s += "-nopattern"
+	} else if e.EffEngine == "RelevantOnly" {
 		s += "-" + e.StatusSource
 		if e.Denies > 1 {
 			s += "-multi" // several disruptive rules: the first evaluated one gives the (real or would-be) status
@@ -348,7 +370,9 @@ func (c *c19Case) render(writerType, target, dir string) string {
 		fmt.Fprintf(&sb, "SecAuditLogStorageDir %s\n", dir)
 	}
 	fmt.Fprintf(&sb, "SecAuditLogFormat %s\n", c.Format)
-	fmt.Fprintf(&sb, "SecAuditLogRelevantStatus \"%s\"\n", c.Relevant)
+	if c.Relevant != "" {
+		fmt.Fprintf(&sb, "SecAuditLogRelevantStatus \"%s\"\n", c.Relevant)
+	}
 	if c.Parts != "" {
 		fmt.Fprintf(&sb, "SecAuditLogParts %s\n", c.Parts)
 	}
@@ -382,7 +406,7 @@ func (c *c19Case) render(writerType, target, dir string) string {
 			acts = append(acts, "pass")
 		}
 		switch {
-		case len(r.Ctl) > 0:
+		case len(r.Ctl) > 0 || r.First:
 			// ctl carriers fire only for requests that ask for it, so that a follow-up transaction on the same WAF runs without any ctl
 			fmt.Fprintf(&sb, "SecRule REQUEST_HEADERS:X-Ctl \"@streq on\" \"%s\"\n", strings.Join(acts, ","))
 		case r.Never:
